@@ -11,6 +11,7 @@ CONSTANTS
   Lag = 0
   MaxFaults = 2
   MaxPolls = 1
+  MaxRestarts = 0
   FixH13 = TRUE
   FixRevertVerify = TRUE
   FixUnderflow = TRUE
